@@ -69,12 +69,12 @@ class Harness:
         def logged(name, fn):
             s = summarize(fn)
 
-            def w(*a):
-                if not any(is_symbolic(x) for x in a):
-                    return fn(*a)
+            def w(*a, **kw):
+                if not any(is_symbolic(x) for x in a) and not any(is_symbolic(x) for x in kw.values()):
+                    return fn(*a, **kw)
                 ex = EX()
                 n0 = len(ex.deferred)
-                r = s(*a)
+                r = s(*a, **kw)
                 g = [d[0] for d in ex.deferred[n0:]]
                 self.logged_deferred.update(id(d) for d in ex.deferred[n0:])
                 self.keep.extend(ex.deferred[n0:])
